@@ -3,7 +3,7 @@ prop(
     quick=[("native", 8), ("miri", 8)],
     thorough=[("native", 16), ("asan", 4), ("miri", 8)],
     level="exploration",
-    min_evals={"quick": 35_000_000, "thorough": 900_000_000},
+    min_evals={"quick": 50_000_000, "thorough": 1_200_000_000},
     rule=(
         "every string rsync://w and https://w for w over the alphabet {a, A, b, /, ., :, space} up to |w| = 6 (quick) / 7 (thorough) is offered to both parsers "
         "(enumerated disjointly across shards by index), plus two scheme-case variants per scheme and 16 damaged schemes for short w; every accepted URI is checked "
@@ -20,12 +20,30 @@ prop(
         "distinct_nontrivial = accepted URIs of the enumeration + related pairs (equal, relative_to is Some, or parent-of), each counted by exactly one shard, "
         "+ shape classes of the random parts; rejected strings count as evaluations only."
         " Every other way a text becomes a URI value is given the same texts (all family / dictionary / size-family texts, a quarter of the enumerated ones): from_str, from_string, from_bytes, TryFrom<String>, Deserialize over the harness token format with borrowed / transient / owned strings and over serde_json::Value; whatever any of them accepts must satisfy the value and re-parse laws and equal what from_slice made; the serde form of an accepted URI (human-readable and compact) must read back over every transport. Path segments and module names are drawn one time in four from a dictionary of structured shapes (percent-encoded dots / slashes / NUL, dot runs, hidden files, single punctuation characters, bracket-like forms), authorities one time in five from a dictionary of ports, user info, bracketed IP literals and forbidden characters in plausible positions. equal-implies-equal-hash is judged under SipHash and under a word-at-a-time hasher."
+        " Doors and characters outside ASCII (c12_wide.rs): six valid URIs (three rsync, three https: ordinary, upper-case scheme with port, minimal) receive ONE character outside ASCII at EVERY position of scheme, "
+        "delimiter, authority, module, path and the end, replacing the character there or inserted before it: 62 hand-picked characters (C1 controls, no-break space, soft hyphen, Latin-1 letters, Cyrillic / Greek look-alikes, "
+        "characters whose lower / upper case or compatibility form is ASCII such as U+212A U+017F U+0131 U+0130 U+FF0F U+FF0E U+2024 U+2025 U+2215, invisible and directional characters, plane ends, astral characters incl. ones whose "
+        "UTF-16 units end in permitted octets), all of U+0080..U+00FF at every position of the two ordinary URIs, and for every permitted ASCII octet the characters of seven other planes (U+01xx, U+04xx, U+21xx, U+4Exx, U+FFxx, U+1F4xx, U+10F0xx) "
+        "with that low octet in place of their ASCII twin and at three more positions (about 31 000 texts, all of them in the quick tier, plus random family members with 1-3 random foreign characters: 4 000 quick / 400 000 thorough). "
+        "Each text goes through about 40 doors for each of the two types: from_slice, from_bytes (copied and of a String), from_string, TryFrom<String>, TryInto, from_str, str::parse, Deserialize over the token format (human-readable and compact, "
+        "borrowed / transient / owned strings, and octet tokens), serde's own str / String / borrowed-str / Cow deserializers, serde_json from_str / from_slice / from_reader with the string raw, with everything outside ASCII as \\uXXXX (surrogate pairs), "
+        "with only the first character escaped and with every character escaped, from a Value by reference and by value, inside an array and inside an object. Whatever a door accepts must carry exactly the octets of the text, only permitted characters "
+        "(table of the harness), the structure of the model, re-parse from its own octets through from_slice to an equal value with equal hash, and equal what from_slice made of the same text; the unchanged URIs go through the same doors as controls. "
+        "Which doors accepted / rejected is counted per kind (octet, str, serde); disagreement between doors is an observation. One class per (scheme, part, operation, character class, UTF-8 length, outcome). "
+        "Wide families: rsync authority, rsync module name, https authority (and rsync authority and module name together) with L in {255,256,257,4095,4096,4097,16384,32767,32768,32769,65534,65535,65536,65537,65545,70000,131071,131072,131073} "
+        "(thorough: 2^k-2 .. 2^k+2, 2^k+9, 2^k+10 for k = 8..17, 70000, 100000, 196608, 2^20, 2^20+1), once with the component L octets long and once with the end of the component at offset L, with a path of 7, 300, 5000 or 70000 octets; "
+        "members: the base, variants with ONE letter of the long component in the other case (first and last letter, then both sides of offsets 65536, 32768, 131072, 4096, 256, 16384 counted from the start of the text, "
+        "from the start of the component and from its end; up to 10 quick / 48 thorough), the component all-upper / all-lower, scheme case, one letter of each other part in the other case, trailing slash, child, text-level parent, "
+        "the module / authority alone, siblings one octet longer / shorter (which move the later offsets across the threshold); every member under the single-URI laws, all ordered pairs, parent chains, join with the empty path, "
+        "a short path, 600 octets and (every fourth family; thorough: all) 66000 octets; the base and the first variant (thorough: four members) through every door. One class per (scheme, component, kind of L, L, path size, flips below / at-or-above 65536)."
     ),
     assumptions=[
         "permitted characters are taken from the type documentation (no space, control, \" # < > ? [ \\ ] ^ ` { | }, no non-ASCII); acceptance of a string is never demanded, only the laws on what is accepted",
         "'lies beneath base' for https (no is_parent_of there) is read as: same authority and the result's path starts with the base's path; 'parent is a parent of its child' for https as: same authority and the parent's path is a proper prefix",
         "join with the empty path may return the base itself (documented behaviour) or something beneath it",
         "reference equality is computed on the text: bytes up to the first slash after scheme:// ASCII-case-folded, the rest exact",
+        "the statement speaks of 'an accepted URI', so every public way of making a value (octet, str and serde doors) is held to the same laws; that two doors disagree on accepting a text is not demanded to be otherwise (recorded only) - but a value accepted by any door must re-parse from its own octets through from_slice, so a str or serde door accepting what the octet door refuses is reported",
+        "acceptance of authorities / module names of 255 octets .. 1 MiB is not demanded (rejections are counted); the laws apply to what is accepted; violation details of URIs above 8192 octets carry length, head, tail, slash offsets and a digest instead of the text (the case is regenerated from seed and shard)",
     ],
     level_text=(
         "Runtime oracles written from the statement over a bounded-exhaustive input space (every string over a 7-letter alphabet behind both schemes up to length 7, "
@@ -33,7 +51,7 @@ prop(
         "through parsing, parent and join plus all pairs and parent chains of a fixed list of 18 rsync and 12 https URIs, to watch from_utf8_unchecked and the index arithmetic; ASan a medium subset (|w| <= 5). The property is a finite conjunction of algebraic laws over strings, "
         "so exhaustive small-scope enumeration plus sampling beyond is the natural level; no claim is made for alphabets or lengths outside what was explored."
     ),
-    level_note="Small-scope: only 7 letters (one case pair, one other letter, slash, dot, colon, space) are enumerated; longer and richer URIs are sampled, lengths up to about 4100 octets with case differences placed around powers of two.",
+    level_note="Small-scope: only 7 letters (one case pair, one other letter, slash, dot, colon, space) are enumerated; longer and richer URIs are sampled, lengths up to about 4100 octets with case differences placed around powers of two in every component, authority / module name up to 131073 octets (thorough 1 MiB) with case differences on both sides of offsets 256 .. 131072. Characters outside ASCII: one foreign character per text (random part: up to three) at every position of six base URIs, about 1000 distinct characters; sequences of foreign characters, texts that are not valid UTF-8 through the str doors (impossible in safe Rust) and doors outside rpki::uri (XML, DER, TAL decoders - they belong to C09/C11/C01) are not covered here. Miri runs three such texts (even shards) and one 255/256-octet wide family of three members (odd shards).",
     technique="runtime oracle over bounded-exhaustive enumeration + random families, Miri/ASan on the same workload",
     design_ref="DESIGN.md §4 C12",
     exhaustive_scope=(
